@@ -146,6 +146,14 @@ class Adapter(object):
                                    [10.0 * (2 * cid - 1), 10.0 * (2 * cid)], 100.0 * cid, cos)
                 self.setvid(c, cid)
                 g.add_connection(c)
+            elif op == "replace_connection":
+                used = self._live(g.connectionlist, g.connection)
+                cid = lowest_unused(used)
+                k = a["k"]
+                c = m.t2connection([g.block[real_block(a["a"])], g.block[real_block(a["b"])]], {"v": 3, "h": 1}.get(k, 2),
+                                   [10.0 * (2 * cid - 1), 10.0 * (2 * cid)], 100.0 * cid, {"v": -1.0, "h": 0.0}.get(k, 1.0))
+                self.setvid(c, cid)
+                g.add_connection(c)
             elif op == "delete_connection":
                 g.delete_connection((real_block(a["a"]), real_block(a["b"])))
             elif op == "demote_block":
@@ -459,7 +467,9 @@ def random_action(ad, rng, base, rocks, kinds, fracs, allow_minc=True):
         if op == "add_rocktype":
             r = rng.choice(rocks)
             if r in rks and r in used:
-                continue
+                # replacing a rock type that blocks still use leaves those blocks with the old object: legal, but the
+                # library then leaves renaming that name to the caller's care - the driver does not rename it afterwards
+                ad.stale_rocks = getattr(ad, "stale_rocks", set()) | {r}
             return {"op": op, "r": r}
         if op == "delete_rocktype":
             c = [r for r in rks if r not in used]
@@ -467,8 +477,9 @@ def random_action(ad, rng, base, rocks, kinds, fracs, allow_minc=True):
                 return {"op": op, "r": rng.choice(c)}
         if op == "rename_rocktype":
             c = [q for q in rocks if q not in rks]
-            if rks and c:
-                return {"op": op, "r": rng.choice(rks), "q": rng.choice(c)}
+            ok = [r for r in rks if r not in getattr(ad, "stale_rocks", set())]
+            if ok and c:
+                return {"op": op, "r": rng.choice(ok), "q": rng.choice(c)}
         if op == "clean_rocktypes":
             return {"op": op}
         if op == "add_block":
@@ -482,6 +493,9 @@ def random_action(ad, rng, base, rocks, kinds, fracs, allow_minc=True):
             a, b = rng.sample(live, 2)
             if (a, b) not in ckeys and (b, a) not in ckeys:
                 return {"op": op, "a": a, "b": b, "k": rng.choice(kinds)}
+        if op == "add_connection" and ckeys and rng.random() < 0.5:
+            a, b = rng.choice(ckeys)                             # under a name pair that is already there: replaces it in place
+            return {"op": "replace_connection", "a": a, "b": b, "k": rng.choice(kinds)}
         if op == "delete_connection" and ckeys:
             a, b = rng.choice(ckeys)
             return {"op": op, "a": a, "b": b}
